@@ -9,6 +9,12 @@
 (*    shell word;  ninja value;  ninja value holding a shell word;          *)
 (*    response-file word;  ninja value holding a response-file word;        *)
 (*    two words;  words around `&&';  env assignment.                       *)
+(* Environment values are a command position of their own: the laws E1-E3   *)
+(* of ArgFidelity (string form split at the first `=' only, values joined   *)
+(* by the separator only, set / append / prepend against the ambient       *)
+(* value) are checked for every text as VALUE, every spelling must denote   *)
+(* the same environment, and the two examples of the reference manual are   *)
+(* ASSUMEd.                                                                 *)
 (* The model also pins which texts cannot travel through build.ninja at     *)
 (* all (those containing a newline: no Ninja text denotes one) and must     *)
 (* therefore go through the pickled wrapper, and the algebra of Expected.   *)
@@ -55,6 +61,69 @@ EnvAssignRoundTrip ==
         r == ShSplit(<<101, 110, 118, SP>> \o ShQuote(w) \o <<SP, 97>>)
     IN /\ r.err = ""
        /\ LET f == Final(r.cmds[1], <<>>, <<>>, <<>>) IN f.err = "" /\ f.via = "env" /\ f.argv = <<<<97>>>> /\ f.env = <<<<name, s>>>>
+
+\* ---- environment values (E1-E3) ----------------------------------------------------------------------
+EName == <<67, 48, 51>>                                                   \* C03
+Col == <<COLON>>
+StrE(op, t, sep) == [form |-> "string", op |-> op, name |-> <<>>, values |-> <<t>>, sep |-> sep]
+PairE(op, n, vals, sep) == [form |-> "pair", op |-> op, name |-> n, values |-> vals, sep |-> sep]
+Assign(v) == EName \o <<EQ>> \o v
+\* E1: 'NAME=VALUE' is split at the first `=' only; the value - which may itself contain `=' - is kept exactly
+EnvStringSplitsAtFirstEqOnly ==
+    \A t \in Short :
+        LET v == s \o <<EQ>> \o t
+        IN /\ EntryWellFormed(StrE("set", Assign(s), Col))
+           /\ EntryName(StrE("set", Assign(s), Col)) = EName /\ EntryValue(StrE("set", Assign(s), Col)) = s
+           /\ EntryName(StrE("set", Assign(v), Col)) = EName /\ EntryValue(StrE("set", Assign(v), Col)) = v
+           /\ EntryValue(StrE("set", Assign(<<EQ>> \o s), Col)) = <<EQ>> \o s
+\* every spelling of the same name and value denotes the same environment, whatever the operation and the ambient value
+EnvSpellingsAgree ==
+    \A op \in EnvOps : \A amb \in {<<>>, <<<<EName, <<98>>>>>>} :
+        /\ ExpectedEnv(<<StrE(op, Assign(s), Col)>>, amb) = ExpectedEnv(<<PairE(op, EName, <<s>>, Col)>>, amb)
+        /\ WantedEnv(<<StrE(op, Assign(s), Col), StrE(op, <<68, EQ>> \o s, Col)>>, amb)
+             = WantedEnv(<<PairE(op, EName, <<s>>, Col), PairE(op, <<68>>, <<s>>, Col)>>, amb)
+\* the value is an argument string like any other: it arrives unchanged (same code points, same length)
+EnvValueExact ==
+    /\ WantedEnv(<<PairE("set", EName, <<s>>, Col)>>, <<>>) = <<<<EName, s>>>>
+    /\ WantedEnv(<<StrE("set", Assign(s), Col)>>, <<>>) = <<<<EName, s>>>>
+    /\ \A op \in EnvOps : WantedEnv(<<StrE(op, Assign(s), <<SEMI>>)>>, <<>>) = <<<<EName, s>>>>
+\* E2: several values are joined with the separator and nothing else; a single value never sees the separator
+Seps == {<<>>, <<COLON>>, <<SEMI>>, <<SP>>, <<NL>>, <<EQ>>, <<COMMA, SP>>}
+EnvJoin ==
+    \A t \in Short : \A u \in Seps :
+        /\ EntryValue(PairE("set", EName, <<s, t>>, u)) = s \o u \o t
+        /\ EntryValue(PairE("set", EName, <<t, s, t>>, u)) = t \o u \o s \o u \o t
+        /\ EntryValue(PairE("set", EName, <<s>>, u)) = s
+\* E3: set replaces, append / prepend extend what is there (ambient or earlier entry), later entries see earlier ones
+EnvAlgebra ==
+    \A t \in Short :
+        LET amb == <<<<EName, t>>>>
+            W(spec, a) == WantedEnv(spec, a)
+        IN /\ W(<<PairE("set", EName, <<s>>, Col)>>, amb) = <<<<EName, s>>>>
+           /\ W(<<PairE("append", EName, <<s>>, Col)>>, amb) = <<<<EName, t \o Col \o s>>>>
+           /\ W(<<PairE("prepend", EName, <<s>>, Col)>>, amb) = <<<<EName, s \o Col \o t>>>>
+           /\ W(<<PairE("append", EName, <<s>>, Col)>>, <<>>) = <<<<EName, s>>>>
+           /\ W(<<PairE("prepend", EName, <<s>>, Col)>>, <<>>) = <<<<EName, s>>>>
+           /\ W(<<PairE("set", EName, <<t>>, Col), PairE("append", EName, <<s>>, <<SEMI>>)>>, <<>>) = <<<<EName, t \o <<SEMI>> \o s>>>>
+           /\ W(<<PairE("append", EName, <<t>>, Col), PairE("set", EName, <<s>>, Col)>>, amb) = <<<<EName, s>>>>
+           /\ W(<<PairE("set", <<68>>, <<t>>, Col), StrE("prepend", Assign(s), Col)>>, <<>>) = <<<<<<68>>, t>>, <<EName, s>>>>
+\* the example of the reference manual: MY_PATH will be '0:1:2:3'
+ASSUME LET n == <<77>>
+       IN WantedEnv(<<PairE("set", n, <<<<49>>>>, Col), PairE("append", n, <<<<50>>>>, Col), PairE("append", n, <<<<51>>>>, Col),
+                      PairE("prepend", n, <<<<48>>>>, Col)>>, <<>>) = <<<<n, <<48, COLON, 49, COLON, 50, COLON, 51>>>>>>
+\* ... and `env.append('FOO', 'BAR', 'BAZ', separator: ';')' gives BOB;BAR;BAZ if FOO was BOB and BAR;BAZ if it was not defined
+ASSUME LET n == <<70>>
+           e == PairE("append", n, <<<<66, 65, 82>>, <<66, 65, 90>>>>, <<SEMI>>)
+       IN /\ WantedEnv(<<e>>, <<<<n, <<66, 79, 66>>>>>>) = <<<<n, <<66, 79, 66, SEMI, 66, 65, 82, SEMI, 66, 65, 90>>>>>>
+          /\ WantedEnv(<<e>>, <<>>) = <<<<n, <<66, 65, 82, SEMI, 66, 65, 90>>>>>>
+\* a value given in the string form travels through the `env NAME=VALUE cmd' word unchanged, `=' inside included
+EnvStringThroughEnvWord ==
+    \A t \in Short :
+        LET v == s \o <<EQ>> \o t
+            e == StrE("set", Assign(v), Col)
+            r == ShSplit(<<101, 110, 118, SP>> \o ShQuote(EntryName(e) \o <<EQ>> \o EntryValue(e)) \o <<SP, 97>>)
+        IN /\ r.err = ""
+           /\ LET f == Final(r.cmds[1], <<>>, <<>>, <<>>) IN f.err = "" /\ f.via = "env" /\ f.env = WantedEnv(<<e>>, <<>>)
 
 \* ---- which texts need the pickled wrapper ----------------------------------------------------
 \* s read as a *Ninja text*: whatever it decodes to, the result never contains a newline - so a newline
